@@ -145,7 +145,7 @@ fn gen_hs(ch: &mut Choices) -> HsCase {
     }
 }
 
-fn gossip_cfg(key: &node::SecretKey) -> Config {
+pub fn gossip_cfg(key: &node::SecretKey) -> Config {
     static ADDR: OnceLock<net::tcp::ListenerAddr> = OnceLock::new();
     let addr = *ADDR.get_or_init(net::tcp::testonly::reserve_listener);
     Config {
